@@ -26,6 +26,10 @@ CHECKS = {
  "C06": dict(tech="runtime monitoring: model-conformance checking of edit histories (reference LP store in Python) with full query-API dumps after every step plus an internal sparse-store walker",
              text="every query function compared with the reference model as exact rationals after every edit of each explored history, incl. histories crossing the 100 rows/100 cols/1000 nz growth thresholds and shrinking to empty",
              note="explicit zeros stored by change_coef(..,0) are tolerated; refusals of zero-length array queries are tolerated"),
+ "C07": dict(tech="runtime monitoring by fault enumeration: every (public function x invalid argument x lifecycle state) probe of a fixed table executed in its own sanitized process with full before/after state dumps",
+             text="each of ~2900 enumerated invalid calls must return non-zero, raise no ASan/UBSan report and leave problem, basis, stored solution and status byte-identical in the query-API dump",
+             level="fault_enumeration",
+             note="the probe table (checks/c07.py) is the space enumerated; arguments that the API documents as lenient (objsense of QScreate_prob) are not probed"),
 }
 ENGINES = [
  dict(name="qsdrive", path="harness/qsdrive.c", serves_properties=sorted(CHECKS), kind_free_text="script interpreter over the public API writing a before/after event log; built per flavour (gcc ASan+UBSan, plain) from /repo's working tree by build/mkbuild.py"),
@@ -50,7 +54,7 @@ m = dict(version=1,
                       evidence_file="/verif/evidence/%s.json" % p,
                       replay_cmd_template="python3 checks/check.py %s --replay {path}" % p,
                       engine="qsdrive",
-                      level_claimed=dict(category="exploration", text=c["text"], design_ref="DESIGN.md section 6 (%s)" % p),
+                      level_claimed=dict(category=c.get("level","exploration"), text=c["text"], design_ref="DESIGN.md section 6 (%s)" % p),
                       level_note=c["note"], technique=c["tech"]) for p, c in sorted(CHECKS.items())],
          not_applicable=NA,
          notes="All checks rebuild from /repo's working tree (hash-keyed cache in /verif/.cache). Exit 0 held / 1 VIOLATION / 2 inconclusive or harness failure.")
